@@ -877,11 +877,16 @@ _OPS = ["UExt.keyword", "UExt.keywordKeys", "UExt.setKeyword", "UExt.removeKeywo
 # the likely-subtags cascade, maximize / minimize, character_direction in both feature configurations (tables = the model's parameters)
 _LIKELY = ["Language.isEmpty", "Likely.langFromParts", "Likely.maximize", "Likely.minimize", "LangId.maximize", "LangId.minimize",
            "LangId.direction", "LangId.directionNoLikely"]
-SRC_TIE = {"C01": _SUBTAGS + _EXT + _PARSE_LI + _PARSE_LOC + _OPS + _LIKELY,
+# glue: FromStr / PartialEq<&str> / conversion impls
+_GLUE = ["Language.fromStr", "Script.fromStr", "Region.fromStr", "Variant.fromStr", "Script.asStr", "Region.asStr", "Variant.asStr", "Language.eqStr",
+         "Script.eqStr", "Region.eqStr", "Variant.eqStr", "Variant.eqStr2", "Language.clear", "Language.tryFromOption", "LangId.fromStr", "LangId.eqStr",
+         "ExtMap.fromStr", "Locale.fromStr", "Locale.ofLangId", "Locale.toLangId"]
+SRC_TIE = {"C01": _SUBTAGS + _EXT + _PARSE_LI + _PARSE_LOC + _OPS + _LIKELY + _GLUE,
            "C06": _LIKELY, "C07": _LIKELY, "C08": _LIKELY, "C14": _LIKELY, "C20": _LIKELY, "C02": _SUBTAGS + _PARSE_LI, "C03": _SUBTAGS + _EXT + _PARSE_LI + _PARSE_LOC,
            "C04": _SUBTAGS + _EXT + _PARSE_LI + _PARSE_LOC + _FMT, "C05": _SUBTAGS + _EXT + _PARSE_LI + _PARSE_LOC + _FMT,
-           "C09": _SUBTAGS + _EXT + _PARSE_LI + _PARSE_LOC, "C10": _SUBTAGS + _EXT + _OPS + _FMT + _PARSE_LOC + ["LangId.maximize", "LangId.minimize"], "C11": _MATCH + ["Locale.isMatch"], "C12": ["Language.asStr"] + _FMT + _OPS, "C19": _PARSE_LI + _FMT,
-           "C13": _SUBTAGS + _PARSE_LI + _PARSE_LOC, "C15": _SUBTAGS, "C17": _SUBTAGS + _PARSE_LI + _FMT + _OPS}
+           "C09": _SUBTAGS + _EXT + _PARSE_LI + _PARSE_LOC, "C10": _SUBTAGS + _EXT + _OPS + _FMT + _PARSE_LOC + ["LangId.maximize", "LangId.minimize"], "C11": _MATCH + ["Locale.isMatch"], "C12": ["Language.asStr"] + _FMT + _OPS + _GLUE, "C19": _PARSE_LI + _FMT,
+           "C13": _SUBTAGS + _PARSE_LI + _PARSE_LOC + ["Locale.ofLangId", "Locale.toLangId", "LangId.fromStr", "Locale.fromStr"],
+           "C15": _SUBTAGS + [g for g in _GLUE if g.split(".")[0] in ("Language", "Script", "Region", "Variant")], "C17": _SUBTAGS + _PARSE_LI + _FMT + _OPS}
 
 
 PARSE_STREAMS = [("tokens", None), ("wf", None), ("near", None), ("raw", None)]
